@@ -46,7 +46,9 @@ class ParseInterp(Interp):
 
 def _plain(v):
     if isinstance(v, Sym):
-        return ('expr', v.args[0]) if v.kind == 'parsed' else repr(v)
+        if v.kind != 'parsed':
+            raise Unrecognised('E6p', f'the parser evaluation produced the unmodelled value {v!r}', None)
+        return ('expr', v.args[0])
     if isinstance(v, dict):
         return {k: _plain(x) for k, x in v.items()}
     if isinstance(v, (list, tuple)):
